@@ -315,6 +315,22 @@ theorem translated_refreshCandidates (s : St) (σ : Env) :
     rangeOwned Trans.refreshCandidateBody s s.owned σ [] = candidates s :=
   translated_refreshCandidates_loop s s.owned σ []
 
+
+/-- revokePartitionAssignments, translated: assignments in flight are cancelled and the assignment lock taken, the client is
+unassigned, and — **whether or not Unassign failed** — a consumer with parallel recovery tells its recovery consumer that it
+owns nothing and refreshes it before the revocation returns; without parallel recovery nothing else happens -/
+theorem translated_revoke (σ : Env) :
+    obs Trans.kcRevoke σ =
+      ⟨[("k.assignPartitionsCancel", []), ("k.assignPartitionsMutex.Lock", []),
+        ("defer func() { k.assignPartitionsMutex.Unlock() k.assignPartitionsCtx, k.assignPartitionsCancel = context.WithCancel(context.Background()) }", []),
+        ("k.consumer.Unassign", [])] ++
+        (if σ "k.recoveryConsumerEnabled" ≠ 0 then
+          [("k.recoveryConsumer.SetAssignedPartitions", [σ "[]kafka.TopicPartition{}"]), ("k.recoveryConsumer.RefreshAssignments", [])]
+         else []), none, false⟩ := by
+  by_cases h1 : σ "k.consumer.Unassign#0" = 0 <;> by_cases h2 : σ "k.recoveryConsumerEnabled" = 0 <;>
+  by_cases h3 : σ "k.recoveryConsumer.RefreshAssignments#0" = 0 <;>
+  minigo_simp [Trans.kcRevoke, h1, h2, h3]
+
 end Translated
 
 theorem closure_unchanged : GeneratedClo.C09 = ExpectedClo.C09 := by rfl
